@@ -1364,10 +1364,62 @@ def check_primes():
     return fails
 
 
+def check_small_public_values(ctx, g):
+    """A public value with leading zero octets (about 1 key pair in 256) must still be encoded on the fixed width of the
+    group.  The key pair is replaced by a stand-in with a chosen public number; everything else is the real constructor."""
+    import types
+    import warnings
+    from unittest import mock
+    import crypto
+    fails = []
+    width = len(crypto.MODPDH._group_dict[g]) // 2
+
+    def run(y):
+        class FakeKey:
+            key_size = width * 8
+
+            def public_key(self):
+                return self
+
+            def public_numbers(self):
+                return types.SimpleNamespace(y=y, x=y)
+
+        class FakeParams:
+            def generate_private_key(self):
+                return FakeKey()
+
+        class FakePN:
+            def __init__(self, p, gen):
+                pass
+
+            def parameters(self, backend=None):
+                return FakeParams()
+        with warnings.catch_warnings():
+            warnings.simplefilter('ignore')
+            with mock.patch.object(crypto.dh, 'DHParameterNumbers', FakePN):
+                return crypto.MODPDH(g)
+    for y in (1, 255, 256, (1 << (8 * (width - 1))) - 1, (1 << (8 * (width - 1))) + 7, (1 << (8 * width - 1)) + 9):
+        ctx.case(['dh-small-public', g, y.bit_length()], nontrivial=True)
+        try:
+            d = run(y)
+            ok = len(d.public_key) == width and int.from_bytes(d.public_key, 'big') == y
+            detail = f'{len(d.public_key)} octets'
+        except Exception as ex:     # noqa
+            ok, detail = False, f'raised {type(ex).__name__}'
+        if not ok:
+            fails.append(Failure('property', 'keys:dh-public-value',
+                                 f'group {g}: a public value of {y.bit_length()} bits is encoded as {detail}, the group '
+                                 f'width is {width} octets', {'kind': 'dh-small', 'group': g}))
+            break
+    return fails
+
+
 def check_dh_group(ctx, g, rounds=1):
     import warnings
     import crypto
     fails = []
+    if g in crypto.MODPDH._group_dict:
+        fails += check_small_public_values(ctx, g)
     with warnings.catch_warnings():
         warnings.simplefilter('ignore')
         for _ in range(rounds):
